@@ -572,6 +572,7 @@ def execute(case, ctx):
 
         node = parent = field = idx = None
         insertion_at = None
+        elif_chain = False
 
         if step['op'] in NODE_OPS:
             live = em.node_targets(root.a)
@@ -601,10 +602,7 @@ def execute(case, ctx):
 
                 continue
 
-            if field == 'orelse' and parent.__class__ is ast.If and n == 1 and getattr(parent, field)[0].__class__ is ast.If:
-                ctx.count('skipped:insert_into_elif_chain')
-
-                continue
+            elif_chain = field == 'orelse' and parent.__class__ is ast.If and n == 1 and getattr(parent, field)[0].__class__ is ast.If
 
         try:
             ap = em.apply_step(root, step, c01.BASE_OPTS)
@@ -636,6 +634,35 @@ def execute(case, ctx):
             continue
 
         site = f'{ap.op}:{ap.parent_cls}.{ap.field}'
+
+        if elif_chain:
+            # insertion into an `elif` chain rewrites `elif` to `else:` + `if` and re-indents the old block: positions cannot be compared, but no
+            # comment may be lost and no string token may change except the documented re-indentation of docstring-like statements (option docstr)
+            ctx.count('elif_chain_insertions_checked(reduced clause)')
+            docstr = ap.opts.get('docstr', True)
+            reindentable = set()
+
+            if docstr is not False:
+                for n_ in ast.walk(ref):
+                    for f_ in ('body', 'orelse', 'finalbody'):
+                        for k_, st_ in enumerate(getattr(n_, f_, None) or ()):
+                            if isinstance(st_, ast.Expr) and isinstance(st_.value, ast.Constant) and isinstance(st_.value.value, str) and st_.end_lineno > st_.lineno:
+                                if docstr is True or (k_ == 0 and f_ == 'body' and isinstance(n_, (ast.FunctionDef, ast.AsyncFunctionDef, ast.ClassDef, ast.Module))):
+                                    reindentable.add((st_.lineno, st_.col_offset))
+
+            ostr = Counter(t[1] for t in K_pos(old) if t[0] == tokenize.STRING and '\n' in t[1] and (t[2][0] + 1, len(old.split('\n')[t[2][0]][:t[2][1]].encode())) not in reindentable)
+            nstr = Counter(t[1] for t in K_pos(new) if t[0] == tokenize.STRING)
+            ocom = Counter(t[1] for t in K_pos(old) if t[0] == tokenize.COMMENT)
+            ncom = Counter(t[1] for t in K_pos(new) if t[0] == tokenize.COMMENT)
+
+            if ostr - nstr:
+                raise Violation('C04.string_changed', f'{ap.desc}: multi-line string token(s) outside the inserted element changed although docstr={docstr!r} does not allow it: '
+                                f'{[x[:60] for x in (ostr - nstr)]}\n--- old ---\n{old[:800]}\n--- new ---\n{new[:800]}', f'string:{site}')
+
+            if ocom - ncom:
+                raise Violation('C04.comment_lost', f'{ap.desc}: comment(s) lost: {dict(ocom - ncom)}\n--- old ---\n{old[:800]}\n--- new ---\n{new[:800]}', f'lost_elif:{site}')
+
+            continue
 
         if step['op'] not in NODE_OPS:
             # statement insertion at index `start` of a non-empty statement list: prefix = everything through the end of
